@@ -39,12 +39,18 @@ RXV_SUBCOMMAND(c08) {
 	const std::string keyHex = hex(key.data(), key.size());
 	R.setCase("{\"key\":\"" + keyHex + "\",\"stage\":\"setup\"}");
 	mdl::Cache mc; mc.init(cases::nn(key), key.size());
-	randomx_dataset* ds = api::allocDataset(RANDOMX_FLAG_DEFAULT);
+	// every other shard takes the LARGE_PAGES variants of the cache / dataset objects (their allocation switch sets up the
+	// initialiser pointers separately); the interposed mmap serves the huge-page requests with ordinary pages
+	ip::setHugePages(1);
+	const int lpCache = (args.shard & 1) ? RANDOMX_FLAG_LARGE_PAGES : 0, lpDataset = (args.shard & 2) ? RANDOMX_FLAG_LARGE_PAGES : 0;
+	randomx_dataset* ds = api::allocDataset((randomx_flags)lpDataset);
 	if (!ds) R.harnessFail("alloc_dataset");
+	if (lpCache) R.count("caches_large_pages", 2);
+	if (lpDataset) R.count("datasets_large_pages");
 	uint8_t* mem = (uint8_t*)randomx_get_dataset_memory(ds);
 
 	for (int jit = 0; jit < 2; ++jit) {
-		randomx_cache* cache = api::allocCache(jit ? RANDOMX_FLAG_JIT : RANDOMX_FLAG_DEFAULT);
+		randomx_cache* cache = api::allocCache((randomx_flags)((jit ? RANDOMX_FLAG_JIT : 0) | lpCache));
 		if (!cache) R.harnessFail("alloc_cache");
 		api::initCache(cache, cases::nn(key), key.size());
 		if (memcmp(randomx_get_cache_memory(cache), mc.bytes(), 268435456)) R.violation("C08:model:cache-bytes", "{\"key\":\"" + keyHex + "\"}");
